@@ -15,6 +15,7 @@ RULE = ("cases = square (dims 1..4, n<=5) and rectangular (dims 2..4, n<=3) oper
         "(monitor, n, |S|, rectangular?) and is non-trivial when the result differs from the input; plus 9..13 subsystems, repeat calls with the same "
         "ndarray sys / dim objects, one cvxpy Variable transposed under several factorisations and after a new value")
 CASE_TIMEOUT = {"quick": 240, "thorough": 3000}
+THOROUGH_REPEAT = 4  # the thorough tier runs its randomised case kinds this many times (new inputs each time)
 ASSUMPTIONS = [
     "reference model = swap of tensor axes s <-> n+s on the (row dims + col dims) tensor, exact comparison",
     "rectangular inputs only with every local dimension >= 2 (the property's quantifier)",
